@@ -227,7 +227,14 @@ func (b *BundleAdd) UnmarshalBinary(data []byte) error {
 	if err != nil {
 		return err
 	}
-	n += int(b.Message.Len())
+	if b.Message == nil {
+		return errors.New("the embedded message is of a type that is not decoded")
+	}
+	// Advance by the length the embedded message carries in its own header.
+	// Asking the decoded message for Len() walks everything nested inside it
+	// again, which made decoding bundle-adds nested in bundle-adds quadratic
+	// in the nesting depth.
+	n += int(binary.BigEndian.Uint16(data[n+2:]))
 	if n < len(data) {
 		b.Properties = make([]BundlePropertyExperimenter, 0)
 		for n < len(data) {
